@@ -31,16 +31,19 @@ FIELDS = {
     'frames': ['one', 'none', 'fifty', 'all_optional', 'no_class'],
     'table': ['one', 'empty', 'children', 'truncated', 'two_thousand', 'modifiers'],
     'watches': ['none', 'good', 'error', 'four_sources', 'good_and_error', 'empty_error_text'],
-    'attributes': ['ctx', 'empty', 'types', 'sequence', 'bytes'],
-    'resource': ['svc', 'empty', 'types', 'sequence'],
+    'attributes': ['ctx', 'empty', 'types', 'sequence', 'bytes', 'odd'],
+    'resource': ['svc', 'empty', 'types', 'sequence', 'odd'],
     'log': ['unset', 'empty', 'text'],
     'text': ['ascii', 'bmp', 'astral', 'nul', 'surrogate'],
     # positions where text from outside the collector can enter a snapshot (variable values and names are rendered by the collector
     # itself, which escapes un-encodable text - that path is C06's; 'value' here is kept for the other text classes only)
-    'text_at': ['value', 'var_name', 'file', 'method', 'watch_expr', 'watch_error', 'log', 'attr', 'tp_path', 'tp_arg', 'tp_watch', 'resource'],
+    'text_at': ['value', 'var_name', 'file', 'method', 'watch_expr', 'watch_error', 'log', 'attr', 'tp_path', 'tp_arg', 'tp_watch', 'resource',
+                'attr_key', 'resource_key'],
     'tp': ['plain', 'args', 'watches', 'line0'],
 }
 FNAMES = list(FIELDS)
+# values the attribute store keeps as valid (deep.api.attributes._clean_attribute) but that have no direct protobuf form
+ODD = {'gaps': ['eu-1', None, 'eu-2'], 'wide': 2 ** 64, 'narrow': -2 ** 63 - 1, 'edge': 2 ** 63 - 1, 'trace': 2 ** 127 + 5}
 
 
 def bounds(tier):
@@ -77,6 +80,8 @@ def cases(tier, seed):
         out.append({'k': 'collector', 'prog': name})
     for a in ('none', 'basic', 'basic_nopass', 'custom', 'multi', 'raising', 'two_services'):
         out.append({'k': 'auth', 'a': a})
+    for what in ('plain', 'odd-values', 'surrogate-key', 'surrogate-value'):
+        out.append({'k': 'poll_resource', 'what': what})
     return out
 
 
@@ -121,7 +126,10 @@ def build(combo):
     elif d['frames'] == 'no_class':
         frames = [StackFrame(T('file', '/a/f.py'), '', T('method', '<module>'), 0, [], None, app_frame=False)]
     res_attrs = {'svc': {'service.name': T('resource', 'svc')}, 'empty': {}, 'types': {'b': True, 'i': 3, 'f': 1.5, 's': T('resource', 'x')},
-                 'sequence': {'seq': ['a', 'b'], 'ints': (1, 2)}}[d['resource']]
+                 'sequence': {'seq': ['a', 'b'], 'ints': (1, 2)}, 'odd': dict(ODD)}[d['resource']]
+    if at == 'resource_key':
+        res_attrs = dict(res_attrs)
+        res_attrs[txt] = 'by-key'
     snap = EventSnapshot(tp, d['ts'], Resource(res_attrs), frames, table)
     snap._id = d['id']
     snap._duration_nanos = d['duration']
@@ -139,7 +147,11 @@ def build(combo):
         for src in ('WATCH', 'LOG', 'METRIC', 'CAPTURE'):
             snap.add_watch_result(WatchResult(src, 'e_' + src, VariableId('1', 'e') if table else None, None if table else 'err'))
     attrs = {'ctx': {'context': 'c-1', 'tracepoint': T('attr', 'tp-1')}, 'empty': {}, 'types': {'b': False, 'i': -3, 'f': 2.25, 's': T('attr', '')},
-             'sequence': {'seq': ['a', 'b'], 'flags': [True, False], 'one': (1.5,)}, 'bytes': {'raw': b'bytes', 'seqb': [b'x', b'y']}}[d['attributes']]
+             'sequence': {'seq': ['a', 'b'], 'flags': [True, False], 'one': (1.5,)}, 'bytes': {'raw': b'bytes', 'seqb': [b'x', b'y']},
+             'odd': dict(ODD)}[d['attributes']]
+    if at == 'attr_key':
+        attrs = dict(attrs)
+        attrs[txt] = 'by-key'
     snap.attributes.merge_in(BoundedAttributes(attributes=attrs))
     if d['log'] == 'empty':
         snap.log_msg = ''
@@ -158,7 +170,8 @@ def any_value(v):
     if isinstance(v, str):
         return ('string', v)
     if isinstance(v, int):
-        return ('int', v)
+        # what does not fit the 64-bit field cannot arrive as a number without loss: its decimal text must
+        return ('int', v) if -2 ** 63 <= v < 2 ** 63 else ('string', str(v))
     if isinstance(v, float):
         return ('double', v)
     if isinstance(v, bytes):
@@ -289,6 +302,8 @@ def run_case(ctx, desc):
         one(ctx, desc['c'])
     elif desc['k'] == 'collector':
         collector(ctx, desc)
+    elif desc['k'] == 'poll_resource':
+        poll_resource(ctx, desc)
     else:
         auth(ctx, desc)
 
@@ -322,7 +337,7 @@ def text_used(d):
         return d['attributes'] in ('ctx', 'types')
     if at == 'resource':
         return d['resource'] in ('svc', 'types')
-    return True
+    return True      # attr_key / resource_key: always present
 
 
 def collector(ctx, desc):
@@ -369,6 +384,42 @@ def collector(ctx, desc):
             compare(ctx, s, f'collector snapshot of {desc["prog"]}', desc, 'collector')
             return
     ctx.outcome(('collector', len(sent) > 0))
+
+
+def poll_resource(ctx, desc):
+    """The resource goes out with every poll as well: the same values through the real LongPoll.poll()."""
+    from deep.api.resource import Resource
+    from deep.poll.poll import LongPoll
+    from deepproto.proto.poll.v1.poll_pb2 import PollResponse, ResponseType
+    attrs = {'service.name': 'svc'}
+    if desc['what'] == 'odd-values':
+        attrs.update(ODD)
+    elif desc['what'] == 'surrogate-key':
+        attrs['r\udce9gion'] = 'eu'
+    elif desc['what'] == 'surrogate-value':
+        attrs['team'] = '\udce9quipe'
+    chan = rig.FakeChannel(poll_handler=lambda req, md: PollResponse(ts_nanos=1, current_hash='h', response_type=ResponseType.NO_CHANGE))
+    from deep.config import ConfigService
+    from deep.config.tracepoint_config import TracepointConfigService
+    cfg = ConfigService({'APP_ROOT': '/x', 'SERVICE_URL': 'fake:1'}, tracepoints=TracepointConfigService())
+    cfg.resource = Resource(attrs)
+    poll = LongPoll(cfg, rig.FakeGrpc(chan, [('authorization', 'k')]))
+    ctx.case()
+    ctx.nt(('poll_resource', desc['what']))
+    try:
+        poll.poll()
+    except BaseException as e:
+        ctx.violation(f'C08/poll-not-sent/{desc["what"]}', f'a resource with {desc["what"]} ({ {k: v for k, v in attrs.items() if k != "service.name"} }): poll() raised {e!r}; no poll request can ever be sent', desc)
+        return
+    polls = [c for c in chan.calls if c[0].endswith('/poll')]
+    if len(polls) != 1:
+        ctx.violation(f'C08/poll-not-sent/{desc["what"]}', f'{len(polls)} poll requests', desc)
+        return
+    got = sorted((kv.key, pb_any(kv.value)) for kv in polls[0][1].resource.attributes)
+    want = esc(sorted((k, any_value(v)) for k, v in cfg.resource.attributes.items()))
+    ctx.outcome(('poll_resource', desc['what']))
+    if got != sorted(want):
+        ctx.violation(f'C08/poll-resource-differs/{desc["what"]}', f'poll carried {[g for g in got if g not in want][:3]}, resource holds {[w for w in want if w not in got][:3]}', desc)
 
 
 def auth(ctx, desc):
